@@ -14,7 +14,16 @@ Sample250 == 250
 Sample900 == 900
 Sample200 == 200
 Sample3000 == 3000
-Export == (phase = "generated" /\ RandomElement(1..SampleOneIn) = 1) =>
+Sample1200 == 1200
+Sample6000 == 6000
+Sample1M == 100000000
+Sample1500 == 1500
+\* a triangle of base-class dependencies (R inherits F and S, F inherits S): the shape on which a topological sort that
+\* mishandles already-visited nodes duplicates or misorders a class (seeded change C08b).  Always over-sampled.
+Triangle == /\ module = Frags
+            /\ \E f \in module : Cardinality(deps[f]) >= 2 /\ \E g \in deps[f] : deps[g] \cap deps[f] # {}
+TriangleOneIn == 4
+Export == (phase = "generated" /\ (RandomElement(1..SampleOneIn) = 1 \/ (NF >= 3 /\ Triangle /\ RandomElement(1..TriangleOneIn) = 1))) =>
   PrintT(<<"F", [f \in Frags |-> [on |-> defs[f].on, inl |-> defs[f].inl, spreads |-> SetToSortSeq(defs[f].spreads, <)]],
            [k \in DOMAIN ops |-> [i \in DOMAIN ops[k] |-> [T |-> ops[k][i].T, fs |-> SetToSortSeq(ops[k][i].fs, <)]]],
            SetToSortSeq(unpacked, <), SetToSortSeq(mixins, <), order, nm,
